@@ -1258,6 +1258,9 @@ class Interp:
             return ops.cmp_num(sym, a, b)
         if isinstance(a, str) and isinstance(b, str):
             return {"<": a < b, "<=": a <= b, ">": a > b, ">=": a >= b}[sym]
+        if (isinstance(a, str) or (isinstance(a, Sym) and a.sort == "str")) and (isinstance(b, str) or (isinstance(b, Sym) and b.sort == "str")):
+            ta, tb = term(a, "str"), term(b, "str")
+            return mk({"<": ta < tb, "<=": ta <= tb, ">": tb < ta, ">=": tb <= ta}[sym], "bool")
         if isinstance(a, Rec) and a.cls.kind == "namedtuple":
             a = tuple(self.iterate(a))
         if isinstance(b, Rec) and b.cls.kind == "namedtuple":
